@@ -343,6 +343,77 @@ def gen_file(rng, tier):
     return dict(k=k, n=n, segsize=base, eff_seg=seg, size=size, nservers=rng.randint(max(1, n - 2), n + 2), lit=False)
 
 
+# --------------------------------------------------------------------------- guessed segment size
+class guessing(object):
+    """Set the segment size a FRESH download node guesses before it has seen the share (production default 1 MiB,
+    class attribute DownloadNode.default_max_segment_size) for the duration of a block; always restored."""
+
+    def __init__(self, value):
+        self.value = value
+
+    def __enter__(self):
+        from allmydata.immutable.downloader.node import DownloadNode
+        self.cls = DownloadNode
+        self.had = "default_max_segment_size" in DownloadNode.__dict__
+        self.old = DownloadNode.__dict__.get("default_max_segment_size")
+        if self.value is not None:
+            DownloadNode.default_max_segment_size = self.value
+        return self
+
+    def __exit__(self, *a):
+        if self.value is not None:
+            if self.had:
+                self.cls.default_max_segment_size = self.old
+            else:
+                del self.cls.default_max_segment_size
+        return False
+
+
+def guessed_effective(guess, size, k):
+    """What a fresh node will believe the segment size is (independent arithmetic)."""
+    g = min(size, guess if guess is not None else 1024 * 1024)
+    return max(k, ((g + k - 1) // k) * k)
+
+
+def guess_candidates(seg, k):
+    return [None, None, seg, 16, max(1, seg // 2), max(1, seg // 3), seg - k, seg - 1, seg + k, 2 * seg, 1, k]
+
+
+def note_cold_guess(ck, readers, guess_eff, seg, size):
+    """Behavioural reach counters of cold reads whose first segment request is computed from a wrong guess."""
+    for r in readers:
+        e = len(r.expected)
+        if not e or r.offset == 0:
+            continue
+        if guess_eff < seg:
+            ck.hit("cold-read-with-guess-smaller-than-actual")
+            start = (r.offset // guess_eff) * seg      # where the segment the guess names really starts
+            if r.offset < start < r.offset + e:
+                ck.hit("cold-read-guessed-segment-starts-inside-range")
+            elif start >= size:
+                ck.hit("cold-read-guessed-segment-beyond-last")
+        elif guess_eff > seg:
+            ck.hit("cold-read-with-guess-larger-than-actual")
+        else:
+            ck.hit("cold-read-with-exact-guess")
+
+
+def straddling_range(rng, guess_eff, seg, size):
+    """(offset,size) whose guessed segment number names a real segment that starts inside the range, or None."""
+    nseg = (size + seg - 1) // seg
+    cands = []
+    for j in range(1, nseg):
+        lo, hi = j * guess_eff, min((j + 1) * guess_eff, j * seg)     # offsets with off//guess == j and off < j*seg
+        if lo < hi:
+            cands.append((j, lo, hi))
+    if not cands:
+        return None
+    (j, lo, hi) = rng.choice(cands)
+    off = rng.choice([lo, hi - 1, rng.randrange(lo, hi)])
+    end = rng.choice([j * seg + 1, j * seg + rng.randint(1, seg), size, size + 1, None])
+    return off, (None if end is None else max(1, end - off))
+
+
 # --------------------------------------------------------------------------- part 1: sampled
 def sampled_case(ck, rng, i, DownloadStopped):
     from vf.grid import VGrid
@@ -374,12 +445,21 @@ def sampled_case(ck, rng, i, DownloadStopped):
                 vs.disconnect()
         reader_client = c if rng.random() < .6 else g.make_client(k=rng.randint(1, 3), happy=1, n=rng.randint(3, 10))
         node = reader_client.create_node_from_uri(cap)
+        # what a fresh node guesses for the segment size: production default (1 MiB), exact, smaller, larger
+        guess = rng.choice(guess_candidates(seg, p["k"])) if kind == "chk" else None
+        guess_eff = guessed_effective(guess, p["size"], p["k"]) if kind == "chk" else None
+        desc["guessed_segsize"] = guess_eff
+        cold = True
         if kind == "chk" and (p["size"] + seg - 1) // seg > 1:
             ck.hit("multi-segment-file")
         if seg % 16:
             ck.hit("segment-size-not-multiple-of-aes-block")
         nrounds = rng.choice([1, 2, 3, 4]) if kind == "chk" else rng.choice([2, 4, 6])
         for rnd in range(nrounds):
+            if rnd and kind == "chk" and rng.random() < .6:
+                # a fresh client has a fresh node: its first reads run on guesses again
+                node = g.make_client(k=rng.randint(1, 3), happy=1, n=rng.randint(3, 10)).create_node_from_uri(cap)
+                cold = True
             nreads = rng.choice([1, 2, 2, 3, 3, 4, 4])
             readers = []
             starts = []
@@ -387,6 +467,8 @@ def sampled_case(ck, rng, i, DownloadStopped):
             stagger = rng.choice([0, 0, 1, 3, 10, 30])
             for j in range(nreads):
                 off, sz = gen_range(rng, p["size"], seg, near=prev)
+                if cold and kind == "chk" and guess_eff < seg and rng.random() < .6:
+                    off, sz = straddling_range(rng, guess_eff, seg, p["size"]) or (off, sz)
                 prev = (off, sz if sz is not None else p["size"])
                 exp = expected_slice(data, off, sz)
                 bp, sp, dp, label = gen_plan(rng, len(exp), seg, kind)
@@ -424,12 +506,16 @@ def sampled_case(ck, rng, i, DownloadStopped):
                 a.byte_plan.sort(key=lambda t: t[0])
                 a.label += "+stops-sibling"
             rng.shuffle(starts) if not stagger else None
-            outcome = drive(g, readers, starts)
+            with guessing(guess):
+                outcome = drive(g, readers, starts)
             g.sched.run(max_steps=3000, allow_time=False)     # flush late answers: nothing may reach a finished consumer
             if outcome == "steps":
                 ck.observe("step-limit")
                 ck.inconclusive_because("step limit reached in a round of reads")
-            judge(ck, readers, outcome, kind, dict(desc, round=rnd, cold=(rnd == 0)), DownloadStopped)
+            judge(ck, readers, outcome, kind, dict(desc, round=rnd, cold=cold), DownloadStopped)
+            if cold and kind == "chk":
+                note_cold_guess(ck, readers, guess_eff, seg, p["size"])
+            was_cold, cold = cold, False
             for r in readers:
                 e = len(r.expected)
                 cls = ("empty" if e == 0 else "whole" if e == p["size"] else "range")
@@ -443,12 +529,13 @@ def sampled_case(ck, rng, i, DownloadStopped):
                     ck.hit("size-zero")
                 if r.offset % 16:
                     ck.hit("offset-inside-aes-block")
-                if kind == "chk" and r.offset >= seg and rnd == 0:
+                if kind == "chk" and r.offset >= seg and was_cold:
                     ck.hit("cold-node-offset-beyond-first-segment")
                 if kind == "chk" and e and (r.offset // seg) != ((r.offset + e - 1) // seg):
                     ck.hit("range-spans-segments")
                 ck.case("%s-%s-%s" % (kind, cls, r.label.split("+")[0]),
-                        key=(kind, p["k"], p["n"], seg, p["size"], r.offset, r.size, r.label, nreads, profile),
+                        key=(kind, p["k"], p["n"], seg, p["size"], r.offset, r.size, r.label, nreads, profile,
+                             guess_eff if was_cold else "warm"),
                         nontrivial=e > 0 or r.offset >= p["size"],
                         sample=dict(desc, read=(r.offset, r.size), plan=r.label, concurrent=nreads))
             ck.hit("concurrency-%d" % nreads)
@@ -511,24 +598,43 @@ def enumerated_part(ck, deadline_frac, DownloadStopped):
                     if st != "ok":
                         ck.inconclusive_because("enumeration upload failed")
                         return
-                    node = c.create_node_from_uri(res.get_uri())
+                    cap = res.get_uri()
+                    old_client = None
                 done += 1
-                readers = []
-                starts = []
-                for (a, b) in (ra, rb):
-                    sz = b - a
-                    if b == size + 1 and (a + idx) % 2 == 0:
-                        sz = None       # the unspecified-size spelling of "to EOF"
-                    r = Reader(ck, "plain", a, sz, expected_slice(data, a, sz))
-                    readers.append(r)
-                    starts.append((0, r, (lambda r=r, a=a, sz=sz: node.read(r, a, sz))))
-                with ck.watchdog(120, "enumerated pair %r %r" % (ra, rb)):
-                    outcome = drive(g, readers, starts)
-                    judge(ck, readers, outcome, "chk",
-                          dict(k=k, n=p["n"], max_segsize=S, size=size, profile=profile, part="enumeration"), DownloadStopped)
+                # the pair runs twice: on a FRESH node (fresh client) whose segment-size guess comes from a rota of
+                # smaller / exact / larger / production-default values, then again on the same, now warm, node
+                guesses = [None, 16, S, max(1, S // 2), 2 * S, max(1, S // 3), S - k, 1]
+                guess = guesses[done % len(guesses)]
+                guess_eff = guessed_effective(guess, size, k)
+                if old_client is not None:
+                    try:
+                        old_client.stopService()      # keep the number of idle clients (and their timers) small
+                    except Exception:
+                        pass
+                old_client = g.make_client(k=k, happy=1, n=p["n"], max_segment_size=S)
+                node = old_client.create_node_from_uri(cap)
+                for temp in ("cold", "warm"):
+                    readers = []
+                    starts = []
+                    for (a, b) in (ra, rb):
+                        sz = b - a
+                        if b == size + 1 and (a + idx) % 2 == 0:
+                            sz = None       # the unspecified-size spelling of "to EOF"
+                        r = Reader(ck, "plain", a, sz, expected_slice(data, a, sz))
+                        readers.append(r)
+                        starts.append((0, r, (lambda r=r, a=a, sz=sz: node.read(r, a, sz))))
+                    with ck.watchdog(120, "enumerated pair %r %r" % (ra, rb)):
+                        with guessing(guess):
+                            outcome = drive(g, readers, starts)
+                        judge(ck, readers, outcome, "chk",
+                              dict(k=k, n=p["n"], max_segsize=S, size=size, profile=profile, part="enumeration",
+                                   node=temp, guessed_segsize=guess_eff), DownloadStopped)
+                    if temp == "cold":
+                        note_cold_guess(ck, readers, guess_eff, S, size)
+                    ck.hit("enumerated-pair-" + temp)
                 ck.hit("enumerated-pair")
                 ck.case("pair-of-ranges", key=("pair", fi, ra, rb), nontrivial=True,
-                        sample=dict(file=p, a=ra, b=rb, profile=profile))
+                        sample=dict(file=p, a=ra, b=rb, profile=profile, guessed_segsize=guess_eff))
             else:
                 continue
             break
@@ -615,6 +721,8 @@ def run(ck):
                      "stopped-read-judged", "stopped-with-partial-prefix", "completed-next-to-stopped-sibling",
                      "stop:self-between-events", "stop:self-inside-write", "stop:sibling-inside-write",
                      "concurrency-4", "enumerated-pair", "directed-cancel-then-retry",
+                     "cold-read-with-guess-smaller-than-actual", "cold-read-guessed-segment-starts-inside-range",
+                     "cold-read-with-guess-larger-than-actual", "cold-read-with-exact-guess",
                      "profile:fifo", "profile:per-server-fifo", "profile:free")
     ck.assumptions.append("reads past EOF are judged by the property statement (clipped / empty) although "
                           "interfaces.py leaves them to the caller")
